@@ -30,7 +30,8 @@ type MSlot struct {
 	Slice   bool // value is a slice of N members (flatten result, decorated group)
 	N       int
 	Flatten bool
-	Zero    bool // the function returns the zero value for this result
+	Zero    bool   // the function returns the zero value for this result
+	SlT     string // named slice type variant of a slice-typed result
 }
 
 type MLeaf struct {
@@ -218,7 +219,7 @@ func slotsOf(f *Fn, o *Opts, deco bool) []MSlot {
 			}
 			return
 		}
-		s := MSlot{Path: path, T: r.T, N: 1, Zero: r.Zero && !r.Slice && !r.Flatten}
+		s := MSlot{Path: path, T: r.T, N: 1, Zero: r.Zero && !r.Slice && !r.Flatten, SlT: r.SlT}
 		name, group, flatten := r.Name, r.Group, r.Flatten
 		if top {
 			name, group, flatten = optName, optGroup, optFlatten
